@@ -27,10 +27,12 @@ from ..core.loader import AnalysisError
 def check_closure_idioms(ctx, extra_roots=()):
     from .idioms import (check_shared_mutable, check_abs_of_extremum,
                          check_narrowing_cast, check_inplace_float_store,
-                         check_truthy_position)
+                         check_truthy_position, check_jump_in_finally)
     from .h5names import check_h5_names_created_once
     from .scatter import check_pointer_scatter
-    from .tiling import check_tiling, check_whole_axis, check_window_writes
+    from .tiling import (check_tiling, check_whole_axis,
+                         check_window_writes, check_buffer_windows,
+                         check_store_advances)
     from .perm import (check_request_order, check_unsort_pairs,
                        check_sorted_results_unsorted)
     from .nodekeys import check_memo_keys
@@ -56,13 +58,14 @@ def check_closure_idioms(ctx, extra_roots=()):
             continue
         n_fn += 1
         for rule in (check_shared_mutable, check_abs_of_extremum,
-                     check_truthy_position,
+                     check_truthy_position, check_jump_in_finally,
                      check_narrowing_cast, check_inplace_float_store,
                      check_h5_names_created_once, check_pointer_scatter,
                      check_whole_axis, check_request_order,
                      check_unsort_pairs, check_sorted_results_unsorted,
                      check_memo_keys, check_index_dtype, check_tiling,
-                     check_window_writes, CU.check_cursors,
+                     check_window_writes, check_buffer_windows,
+                     check_store_advances, CU.check_cursors,
                      CU.check_advance):
             try:
                 rule(ctx, fi)
